@@ -155,6 +155,16 @@ Lemma read_exact_S : forall f n r acc,
 Proof. intros. cbn [read_exact]. unfold read. destruct (fill_buf r) as [[a| |k] r']; try reflexivity.
   cbn [fst snd]. destruct (firstn (S n) a); reflexivity. Qed.
 
+Lemma read_extra_S : forall f r buf,
+  read_extra (S f) r buf =
+  match fill_buf r with
+  | (FbBuf (byte :: _), r') => IoDone (buf ++ [byte], consume 1 r')
+  | (FbBuf [], r') => IoDone (buf, r')
+  | (FbInt, r') => read_extra f r' buf
+  | (FbErr k, _) => IoErr k
+  end.
+Proof. reflexivity. Qed.
+
 Lemma read_bom_S : forall f r,
   read_bom (S f) r =
   match fill_buf r with
@@ -209,6 +219,22 @@ Proof.
       rewrite app_length in H. lia.
     + apply IH in H. destruct (fill_buf_int_msr _ _ Hfb). lia.
     + discriminate.
+Qed.
+
+Lemma read_extra_msr : forall fuel r buf buf' r',
+  read_extra fuel r buf = IoDone (buf', r') ->
+  (msr r' + length buf' <= msr r + length buf)%nat /\ (length buf <= length buf')%nat.
+Proof.
+  induction fuel as [|f IH]; intros r buf buf' r' H; [discriminate|].
+  rewrite read_extra_S in H. destruct (fill_buf r) as [[a| |k] r1] eqn:Hfb.
+  - destruct (fill_buf_buf _ _ _ Hfb) as (Ba & _ & M & _ & _).
+    destruct a as [|x t].
+    + inversion H; subst buf' r'; clear H. lia.
+    + inversion H; subst buf' r'; clear H.
+      destruct (consume_bytes 1 r1) as (_ & _ & C); [rewrite Ba; cbn [length]; lia|].
+      rewrite app_length. cbn [length]. lia.
+  - apply IH in H. destruct (fill_buf_int_msr _ _ Hfb). lia.
+  - discriminate.
 Qed.
 
 Lemma from_bom_le3 : forall a, (snd (from_bom a) <= 3)%nat /\ (snd (from_bom a) <= length a)%nat.
@@ -304,25 +330,28 @@ Proof.
   - destruct (fill_buf_err _ _ _ Hfb) as (_ & s & S). rewrite S in F. destruct (faultless_not_fail _ _ F).
 Qed.
 
-Lemma read_exact1_faultless : forall fuel r,
+(* the extra byte of a UTF-16LE line feed: the next byte of the stream if there
+   is one; at the end of the stream the line is kept as it is -- no error *)
+Lemma read_extra_faultless : forall fuel r buf,
   faultless (sched r) -> (msr r < fuel)%nat ->
-  match bytes_of r with
-  | [] => read_exact fuel 1 r [] = IoErr UnexpectedEof
-  | x :: t => exists r', read_exact fuel 1 r [] = IoDone ([x], r') /\ bytes_of r' = t /\ faultless (sched r')
-  end.
+  exists r', read_extra fuel r buf =
+               IoDone (match bytes_of r with [] => buf | x :: _ => buf ++ [x] end, r') /\
+             bytes_of r' = tl (bytes_of r) /\ faultless (sched r').
 Proof.
-  induction fuel as [|f IH]; intros r F M; [lia|].
-  rewrite read_exact_S. destruct (fill_buf r) as [[a| |k] r1] eqn:Hfb.
+  induction fuel as [|f IH]; intros r buf F M; [lia|].
+  rewrite read_extra_S. destruct (fill_buf r) as [[a| |k] r1] eqn:Hfb.
   - destruct (fill_buf_buf _ _ _ Hfb) as (Ba & Bo & M1 & F1 & E).
     assert (Hb : bytes_of r = a ++ rest r1) by (rewrite <- Bo; unfold bytes_of; rewrite Ba; reflexivity).
     destruct a as [|x t].
-    + rewrite (E eq_refl). rewrite firstn_nil. reflexivity.
-    + rewrite Hb. cbn [app]. rewrite firstn_cons, firstn_O. cbn [length]. rewrite Nat.sub_diag, read_exact_0.
-      eexists; split; [reflexivity|]. split; [|rewrite sched_consume; exact (faultless_sub _ _ F1 F)].
+    + rewrite (E eq_refl). exists r1. split; [reflexivity|]. split; [|exact (faultless_sub _ _ F1 F)].
+      rewrite Bo, (E eq_refl). reflexivity.
+    + rewrite Hb. cbn [app tl]. eexists; split; [reflexivity|].
+      split; [|rewrite sched_consume; exact (faultless_sub _ _ F1 F)].
       rewrite bytes_of_consume, Ba, skipn_cons, skipn_O. reflexivity.
   - destruct (fill_buf_int _ _ Hfb) as (B & B' & R & S).
     destruct (fill_buf_int_msr _ _ Hfb) as (Bo & M1).
-    rewrite S in F. specialize (IH r1 (faultless_cons _ _ F)). rewrite Bo in IH. apply IH. lia.
+    rewrite S in F. destruct (IH r1 buf (faultless_cons _ _ F)) as (r' & H & Hb & Fr); [lia|].
+    rewrite Bo in H, Hb. exists r'. auto.
   - destruct (fill_buf_err _ _ _ Hfb) as (_ & s & S). rewrite S in F. destruct (faultless_not_fail _ _ F).
 Qed.
 
@@ -414,33 +443,31 @@ Proof.
   apply read_until_msr in Hr. cbn [io_bind length] in *.
   destruct buf as [|x t]; [discriminate|]. cbn [length] in Hr.
   destruct (enc_is_le (enc d) && ends_with_lf (x :: t)).
-  - destruct (read_exact fuel 1 r []) as [[b r2]| | |] eqn:He; try discriminate.
-    apply read_exact_msr in He. cbn [io_bind] in H. rewrite curr_line_dec in H. cbn [io_bind] in H.
-    inversion H; subst. cbn [inner]. lia.
+  - destruct (read_extra fuel r (x :: t)) as [[b r2]| | |] eqn:He; try discriminate.
+    apply read_extra_msr in He. cbn [io_bind] in H. rewrite curr_line_dec in H. cbn [io_bind] in H.
+    inversion H; subst. cbn [inner length] in *. lia.
   - cbn [io_bind] in H. rewrite curr_line_dec in H. cbn [io_bind] in H.
     inversion H; subst. cbn [inner]. lia.
 Qed.
 
 Lemma next_raw_length : forall e b l rem,
-  next_raw e b = IoDone (Some (l, rem)) -> (length rem < length b)%nat.
+  next_raw e b = Some (l, rem) -> (length rem < length b)%nat.
 Proof.
   intros e b l rem H. unfold next_raw in H. pose proof (split_line_length LF b) as L.
   destruct (split_line LF b) as [l0 r0]. cbn [fst snd] in L.
   destruct l0 as [|x t]; [discriminate|]. cbn [length] in L.
   destruct (enc_is_le e && ends_with_lf (x :: t)).
-  - destruct r0 as [|y r1]; [discriminate|]. inversion H; subst. cbn [length] in L. lia.
+  - destruct r0 as [|y r1]; inversion H; subst; cbn [length] in *; lia.
   - inversion H; subst. lia.
 Qed.
 
 Lemma read_line_faultless : forall fuel d,
   faultless (sched (inner d)) -> (msr (inner d) < fuel)%nat ->
   match next_raw (enc d) (bytes_of (inner d)) with
-  | IoDone None => exists d', read_line fuel d = IoDone (None, d')
-  | IoDone (Some (l, rem)) =>
+  | None => exists d', read_line fuel d = IoDone (None, d')
+  | Some (l, rem) =>
       exists r', read_line fuel d = IoDone (Some (trim_end (dec (enc d) l)), mkDecoder r' l (enc d)) /\
                  bytes_of r' = rem /\ faultless (sched r')
-  | IoErr k => read_line fuel d = IoErr k
-  | _ => False
   end.
 Proof.
   intros fuel d F M.
@@ -451,11 +478,9 @@ Proof.
   destruct l as [|x t].
   - eexists; reflexivity.
   - destruct (enc_is_le (enc d) && ends_with_lf (x :: t)).
-    + pose proof (read_exact1_faultless fuel r1 Fr) as X. rewrite Hb in X.
-      destruct rem as [|y rem'].
-      * rewrite X; [reflexivity|cbn [length] in M1; lia].
-      * destruct X as (r2 & He & Hb2 & F2); [cbn [length] in M1; lia|].
-        rewrite He. cbn [io_bind]. rewrite curr_line_dec. cbn [io_bind]. exists r2. auto.
+    + destruct (read_extra_faultless fuel r1 (x :: t) Fr) as (r2 & He & Hb2 & F2); [cbn [length] in M1; lia|].
+      rewrite He. rewrite Hb in Hb2. rewrite Hb.
+      destruct rem as [|y rem']; cbn [io_bind tl] in *; rewrite curr_line_dec; cbn [io_bind]; exists r2; auto.
     + cbn [io_bind]. rewrite curr_line_dec. cbn [io_bind]. exists r1. auto.
 Qed.
 
@@ -466,14 +491,13 @@ Lemma lines_loop_faultless : forall n m fuel d,
 Proof.
   induction n as [|n IH]; intros m fuel d F M Ln Lm; [lia|]. destruct m as [|m]; [lia|].
   cbn [lines_loop lines_pure]. pose proof (read_line_faultless fuel d F M) as X.
-  destruct (next_raw (enc d) (bytes_of (inner d))) as [[[l rem]|]|k|w|] eqn:Hn; try contradiction.
+  destruct (next_raw (enc d) (bytes_of (inner d))) as [[l rem]|] eqn:Hn.
   - destruct X as (r' & Hl & Hb & Fr). pose proof (read_line_msr _ _ _ _ Hl) as M1. cbn [inner] in M1.
     pose proof (next_raw_length _ _ _ _ Hn) as L1.
     rewrite Hl. cbn [io_bind]. rewrite decode_dec. cbn [io_of_outcome io_bind].
     rewrite (IH m fuel (mkDecoder r' l (enc d))); cbn [inner enc]; try rewrite Hb; try assumption; try lia.
     reflexivity.
   - destruct X as (d' & Hl). rewrite Hl. reflexivity.
-  - rewrite X. reflexivity.
 Qed.
 
 (* T08 on the pinned tree: for every chunking whose first chunk is not shorter
@@ -564,16 +588,15 @@ Proof.
   - left. rewrite X. reflexivity.
 Qed.
 
-Lemma read_exact1_will_fail : forall k fuel r,
+Lemma read_extra_will_fail : forall k fuel r buf,
   will_fail k r -> (msr r < fuel)%nat ->
-  read_exact fuel 1 r [] = IoErr k \/
-  exists b r', read_exact fuel 1 r [] = IoDone (b, r') /\ will_fail k r'.
+  read_extra fuel r buf = IoErr k \/
+  exists b r', read_extra fuel r buf = IoDone (b, r') /\ will_fail k r'.
 Proof.
-  induction fuel as [|f IH]; intros r W M; [lia|].
-  rewrite read_exact_S. pose proof (fill_buf_will_fail k r W) as X.
+  induction fuel as [|f IH]; intros r buf W M; [lia|].
+  rewrite read_extra_S. pose proof (fill_buf_will_fail k r W) as X.
   destruct (fill_buf r) as [[a| |k'] r1] eqn:Hfb.
   - destruct X as (Na & W1). destruct a as [|x t]; [contradiction|].
-    rewrite firstn_cons, firstn_O. cbn [length]. rewrite Nat.sub_diag, read_exact_0.
     right. eexists _, _. split; [reflexivity|exact W1].
   - destruct (fill_buf_int_msr _ _ Hfb) as (_ & M1). apply IH; [exact X|lia].
   - left. rewrite X. reflexivity.
@@ -608,7 +631,7 @@ Proof.
   - pose proof (read_until_msr _ _ _ _ _ _ E) as (M1 & _). cbn [io_bind length] in *.
     destruct buf as [|x t]; [contradiction|].
     destruct (enc_is_le (enc d) && ends_with_lf (x :: t)).
-    + destruct (read_exact1_will_fail k fuel r1 W1) as [E2|(b & r2 & E2 & W2)]; [lia| |]; rewrite E2.
+    + destruct (read_extra_will_fail k fuel r1 (x :: t) W1) as [E2|(b & r2 & E2 & W2)]; [lia| |]; rewrite E2.
       * left; reflexivity.
       * right. cbn [io_bind]. rewrite curr_line_dec. cbn [io_bind]. eexists _, _. split; [reflexivity|exact W2].
     + right. cbn [io_bind]. rewrite curr_line_dec. cbn [io_bind]. eexists _, _. split; [reflexivity|exact W1].
@@ -724,20 +747,17 @@ Proof.
   - destruct X as (r2' & Hfb2). destruct f2 as [|f2]; [lia|]. rewrite read_until_S, Hfb2. reflexivity.
 Qed.
 
-Lemma read_exact1_sim : forall f1 f2 r1 r2 acc,
+Lemma read_extra_sim : forall f1 f2 r1 r2 buf,
   sim r1 r2 -> (msr r1 < f1)%nat -> (msr r2 < f2)%nat ->
-  io_rel pair_sim (read_exact f1 1 r1 acc) (read_exact f2 1 r2 acc).
+  io_rel pair_sim (read_extra f1 r1 buf) (read_extra f2 r2 buf).
 Proof.
-  induction f1 as [|f1 IH]; intros f2 r1 r2 acc S M1 M2; [lia|].
-  rewrite read_exact_S. pose proof (fill_buf_sim r1 r2 S) as X.
+  induction f1 as [|f1 IH]; intros f2 r1 r2 buf S M1 M2; [lia|].
+  rewrite read_extra_S. pose proof (fill_buf_sim r1 r2 S) as X.
   destruct (fill_buf r1) as [[a| |k] r1'] eqn:Hfb.
-  - destruct X as (r2' & Hfb2 & S'). destruct f2 as [|f2]; [lia|]. rewrite read_exact_S, Hfb2.
-    destruct a as [|x t].
-    + rewrite firstn_nil. reflexivity.
-    + rewrite firstn_cons, firstn_O. cbn [length]. rewrite Nat.sub_diag, !read_exact_0.
-      cbn [io_rel]. split; [reflexivity|]. cbn [snd]. apply sim_consume; exact S'.
+  - destruct X as (r2' & Hfb2 & S'). destruct f2 as [|f2]; [lia|]. rewrite read_extra_S, Hfb2.
+    destruct a as [|x t]; cbn [io_rel]; (split; [reflexivity|]); cbn [snd]; [exact S'|apply sim_consume; exact S'].
   - destruct (fill_buf_int_msr _ _ Hfb) as (_ & Mi). apply IH; [exact X|lia|exact M2].
-  - destruct X as (r2' & Hfb2). destruct f2 as [|f2]; [lia|]. rewrite read_exact_S, Hfb2. reflexivity.
+  - destruct X as (r2' & Hfb2). destruct f2 as [|f2]; [lia|]. rewrite read_extra_S, Hfb2. reflexivity.
 Qed.
 
 Lemma read_bom_sim : forall f1 f2 r1 r2,
@@ -779,9 +799,9 @@ Proof.
   cbn [io_bind]. destruct b1 as [|x t].
   - cbn [io_rel]. unfold dec_sim. cbn [fst snd inner enc]. auto.
   - destruct (enc_is_le (enc d1) && ends_with_lf (x :: t)).
-    + pose proof (read_exact1_sim f1 f2 r1 r2 [] S') as Y. cbn [length] in *.
-      destruct (read_exact f1 1 r1 []) as [[c1 q1]| | |];
-        destruct (read_exact f2 1 r2 []) as [[c2 q2]| | |]; cbn [io_rel] in Y;
+    + pose proof (read_extra_sim f1 f2 r1 r2 (x :: t) S') as Y. cbn [length] in *.
+      destruct (read_extra f1 r1 (x :: t)) as [[c1 q1]| | |];
+        destruct (read_extra f2 r2 (x :: t)) as [[c2 q2]| | |]; cbn [io_rel] in Y;
         try (exfalso; apply Y; lia); try (cbn [io_bind io_rel]; apply Y; lia).
       destruct Y as (Ec & Sq); [lia|lia|]. cbn [fst snd] in *. subst c2.
       cbn [io_bind]. rewrite !curr_line_dec. cbn [io_bind io_rel]. unfold dec_sim. cbn [fst snd inner enc]. auto.
@@ -862,6 +882,14 @@ Proof.
   - destruct (fill_buf_int_msr _ _ Hfb) as (_ & M1). apply IH. lia.
 Qed.
 
+Lemma read_extra_ok : forall fuel r buf, (msr r < fuel)%nat -> io_ok (read_extra fuel r buf).
+Proof.
+  induction fuel as [|f IH]; intros r buf M; [lia|].
+  rewrite read_extra_S. destruct (fill_buf r) as [[a| |k] r1] eqn:Hfb; [| |exact I].
+  - destruct a; exact I.
+  - destruct (fill_buf_int_msr _ _ Hfb) as (_ & M1). apply IH. lia.
+Qed.
+
 Lemma read_bom_ok : forall fuel r, (msr r < fuel)%nat -> io_ok (read_bom fuel r).
 Proof.
   induction fuel as [|f IH]; intros r M; [lia|].
@@ -881,8 +909,8 @@ Proof.
   pose proof (read_until_msr _ _ _ _ _ _ Hr) as (M1 & _). cbn [io_bind length] in *.
   destruct buf as [|x t]; [exact I|].
   destruct (enc_is_le (enc d) && ends_with_lf (x :: t)).
-  - pose proof (read_exact_ok fuel 1 r []) as Y.
-    destruct (read_exact fuel 1 r []) as [[b r2]| | |]; try (apply Y; lia); cbn [io_bind]; try exact I.
+  - pose proof (read_extra_ok fuel r (x :: t)) as Y.
+    destruct (read_extra fuel r (x :: t)) as [[b r2]| | |]; try (apply Y; lia); cbn [io_bind]; try exact I.
     rewrite curr_line_dec. exact I.
   - cbn [io_bind]. rewrite curr_line_dec. exact I.
 Qed.
@@ -907,6 +935,150 @@ Proof.
   destruct (read_bom (S (S (msr r))) r) as [[e r']| | |] eqn:Hb; try (apply X; lia); cbn [io_bind]; try exact I.
   pose proof (read_bom_msr _ _ _ _ Hb). apply lines_loop_ok; cbn [inner]; lia.
 Qed.
+
+(* ---------- T01e: an error is one the reader reported ---------- *)
+
+(* the schedule only ever loses events *)
+Lemma fill_buf_sched : forall r x r', fill_buf r = (x, r') ->
+  forall k, In (Fail k) (sched r') -> In (Fail k) (sched r).
+Proof.
+  intros [bf rs sc] x r' H k Hin. unfold fill_buf in H. cbn [buffered rest sched] in *.
+  destruct bf as [|y bt]; [|inversion H; subst; exact Hin].
+  destruct sc as [|[n| |k'] s]; inversion H; subst; cbn [sched] in Hin; try (right; exact Hin).
+  destruct Hin.
+Qed.
+
+Lemma fill_buf_err_in : forall r k r', fill_buf r = (FbErr k, r') -> In (Fail k) (sched r).
+Proof. intros r k r' H. destruct (fill_buf_err _ _ _ H) as (_ & s & S). rewrite S. left; reflexivity. Qed.
+
+Definition from_sched {A} (proj : A -> reader) (r : reader) (x : io A) : Prop :=
+  match x with
+  | IoErr k => In (Fail k) (sched r)
+  | IoDone a => forall k, In (Fail k) (sched (proj a)) -> In (Fail k) (sched r)
+  | _ => True
+  end.
+
+Lemma read_until_from_sched : forall fuel d r buf, from_sched snd r (read_until fuel d r buf).
+Proof.
+  induction fuel as [|f IH]; intros d r buf; [exact I|].
+  rewrite read_until_S. destruct (fill_buf r) as [[a| |k] r1] eqn:Hfb.
+  - pose proof (fill_buf_sched _ _ _ Hfb) as F1.
+    destruct (memchr d a); [exact F1|]. destruct a as [|x t]; [exact F1|].
+    specialize (IH d (consume (length (x :: t)) r1) (buf ++ x :: t)).
+    destruct (read_until f d (consume (length (x :: t)) r1) (buf ++ x :: t)) as [[b r2]|k| |];
+      cbn [from_sched snd] in *; try exact I; rewrite ?sched_consume in IH; auto.
+  - pose proof (fill_buf_sched _ _ _ Hfb) as F1. specialize (IH d r1 buf).
+    destruct (read_until f d r1 buf) as [[b r2]|k| |]; cbn [from_sched snd] in *; try exact I; auto.
+  - exact (fill_buf_err_in _ _ _ Hfb).
+Qed.
+
+Lemma read_extra_from_sched : forall fuel r buf, from_sched snd r (read_extra fuel r buf).
+Proof.
+  induction fuel as [|f IH]; intros r buf; [exact I|].
+  rewrite read_extra_S. destruct (fill_buf r) as [[a| |k] r1] eqn:Hfb.
+  - pose proof (fill_buf_sched _ _ _ Hfb) as F1. destruct a; exact F1.
+  - pose proof (fill_buf_sched _ _ _ Hfb) as F1. specialize (IH r1 buf).
+    destruct (read_extra f r1 buf) as [[b r2]|k| |]; cbn [from_sched snd] in *; try exact I; auto.
+  - exact (fill_buf_err_in _ _ _ Hfb).
+Qed.
+
+Lemma read_bom_from_sched : forall fuel r, from_sched snd r (read_bom fuel r).
+Proof.
+  induction fuel as [|f IH]; intros r; [exact I|].
+  rewrite read_bom_S. destruct (fill_buf r) as [[a| |k] r1] eqn:Hfb.
+  - pose proof (fill_buf_sched _ _ _ Hfb) as F1.
+    destruct ((min_bom_len <=? length a)%nat || (length a =? 0)%nat); [exact F1|].
+    specialize (IH (consume (length a) r1)).
+    destruct (read_bom f (consume (length a) r1)) as [[b r2]|k| |];
+      cbn [from_sched snd] in *; try exact I; rewrite ?sched_consume in IH; auto.
+  - pose proof (fill_buf_sched _ _ _ Hfb) as F1. specialize (IH r1).
+    destruct (read_bom f r1) as [[b r2]|k| |]; cbn [from_sched snd] in *; try exact I; auto.
+  - exact (fill_buf_err_in _ _ _ Hfb).
+Qed.
+
+(* Decoder::read_line: an Err is a failure event of the underlying reader *)
+Lemma read_line_from_sched : forall fuel d,
+  from_sched (fun x => inner (snd x)) (inner d) (read_line fuel d).
+Proof.
+  intros fuel d. unfold read_line.
+  pose proof (read_until_from_sched fuel LF (inner d) []) as X.
+  destruct (read_until fuel LF (inner d) []) as [[buf r]|k| |]; cbn [io_bind from_sched snd] in *; try exact I;
+    [|exact X].
+  destruct buf as [|x t]; [exact X|].
+  destruct (enc_is_le (enc d) && ends_with_lf (x :: t)).
+  - pose proof (read_extra_from_sched fuel r (x :: t)) as Y.
+    destruct (read_extra fuel r (x :: t)) as [[b r2]|k| |]; cbn [io_bind from_sched snd] in *; try exact I; auto.
+    rewrite curr_line_dec. cbn [io_bind from_sched snd inner]. auto.
+  - cbn [io_bind]. rewrite curr_line_dec. cbn [io_bind from_sched snd inner]. exact X.
+Qed.
+
+Theorem read_line_err_from_reader : forall fuel d k,
+  read_line fuel d = IoErr k -> In (Fail k) (sched (inner d)).
+Proof. intros fuel d k H. pose proof (read_line_from_sched fuel d) as X. rewrite H in X. exact X. Qed.
+
+Lemma lines_loop_err_from_reader : forall n fuel d k,
+  lines_loop n fuel d = IoErr k -> In (Fail k) (sched (inner d)).
+Proof.
+  induction n as [|n IH]; intros fuel d k H; [discriminate|]. cbn [lines_loop] in H.
+  pose proof (read_line_from_sched fuel d) as X.
+  destruct (read_line fuel d) as [[o d']|k'| |]; cbn [io_bind from_sched snd] in *; try discriminate.
+  - destruct o as [l|]; [|discriminate].
+    destruct (lines_loop n fuel d') as [ls|k'| |] eqn:Hl; cbn [io_bind] in H; try discriminate.
+    inversion H; subst k'. exact (X k (IH fuel d' k Hl)).
+  - inversion H; subst k'. exact X.
+Qed.
+
+(* T01e: whatever the bytes, the chunking and the reader state, an error result
+   of the decode is a failure event of the schedule *)
+Theorem read_all_lines_err_from_reader : forall r k,
+  read_all_lines r = IoErr k -> In (Fail k) (sched r).
+Proof.
+  intros r k H. unfold read_all_lines, decoder_new in H.
+  pose proof (read_bom_from_sched (S (S (msr r))) r) as X.
+  destruct (read_bom (S (S (msr r))) r) as [[e r']|k'| |]; cbn [io_bind from_sched snd] in *; try discriminate.
+  - apply lines_loop_err_from_reader in H. cbn [inner] in H. exact (X k H).
+  - inversion H; subst k'. exact X.
+Qed.
+
+(* the positive fact behind the repair of D6: a reader that reports no
+   failure gets a list of lines, for every stream, chunking and encoding *)
+Theorem read_line_faultless_done : forall fuel d,
+  faultless (sched (inner d)) -> (msr (inner d) < fuel)%nat ->
+  exists o d', read_line fuel d = IoDone (o, d').
+Proof.
+  intros fuel d F M. pose proof (read_line_ok fuel d M) as Ok.
+  destruct (read_line fuel d) as [[o d']|k| |] eqn:H; try contradiction.
+  - eauto.
+  - destruct (F k (read_line_err_from_reader _ _ _ H)).
+Qed.
+
+Theorem read_all_lines_faultless_done : forall r,
+  faultless (sched r) -> exists ls, read_all_lines r = IoDone ls.
+Proof.
+  intros r F. pose proof (read_all_lines_ok r) as Ok.
+  destruct (read_all_lines r) as [ls|k| |] eqn:H; try contradiction.
+  - eauto.
+  - destruct (F k (read_all_lines_err_from_reader _ _ H)).
+Qed.
+
+(* one step of the extra-byte loop, event by event (C09 on the repaired arm):
+   Interrupted is retried, a hard failure is returned, EOF keeps the line *)
+Lemma read_extra_interrupted : forall f rs s buf,
+  read_extra (S f) (mkReader [] rs (Interrupted :: s)) buf = read_extra f (mkReader [] rs s) buf.
+Proof. reflexivity. Qed.
+
+Lemma read_extra_fail : forall f rs s buf k,
+  read_extra (S f) (mkReader [] rs (Fail k :: s)) buf = IoErr k.
+Proof. reflexivity. Qed.
+
+Lemma read_extra_eof : forall f buf,
+  read_extra (S f) (mkReader [] [] []) buf = IoDone (buf, mkReader [] [] []).
+Proof. reflexivity. Qed.
+
+Lemma read_extra_byte : forall f x bt rs s buf,
+  read_extra (S f) (mkReader (x :: bt) rs s) buf = IoDone (buf ++ [x], mkReader bt rs s).
+Proof. intros. rewrite read_extra_S. cbn [fill_buf buffered]. unfold consume. cbn [buffered rest sched].
+  rewrite skipn_cons, skipn_O. reflexivity. Qed.
 
 End WithDecode.
 
